@@ -253,12 +253,48 @@ Definition symlink_ops (c : cfg) (tmp link : name) (data : bytes) : list op :=
 Definition cancel_ops (i : ino) (tmp : name) (chunks : list bytes) : list op :=
   Creat tmp :: map (Write i) chunks ++ [Unlink tmp; Meta].
 
+(* ---- error exits. Every call of commit may fail; a failed call has no effect and commit returns at once. The caller
+   (AtomicWriteChown's deferred Cancel) then removes the temp file and closes it, unless the rename already happened
+   (ErrCannotCancel). `k` = how many of the calls that are active under cfg succeed before one fails; k >= their number
+   means no failure. *)
+Definition call_is_rename (gc : guard * call) : bool := match snd gc with CRename => true | _ => false end.
+Definition active_commit_calls (c : cfg) : list (guard * call) :=
+  filter (fun gc => guard_on c false (fst gc)) commit_calls.
+Definition commit_ops_f (c : cfg) (i : ino) (tmp t : name) (k : nat) : list op :=
+  let done := firstn k (active_commit_calls c) in
+  flat_map (fun gc => commit_call_ops i tmp t (snd gc)) done ++
+  (if Nat.ltb k (length (active_commit_calls c))
+   then (if existsb call_is_rename done then [] else [Unlink tmp; Meta])
+   else []).
+Definition write_ops_f (c : cfg) (i : ino) (tmp t : name) (chunks : list bytes) (k : nat) : list op :=
+  Creat tmp :: map (Write i) chunks ++ commit_ops_f c i tmp t k.
+
+Definition call_eqb (a b : call) : bool :=
+  match a, b with
+  | CChown, CChown | COpenDir, COpenDir | CFileSync, CFileSync | CClose, CClose | CChtimes, CChtimes
+  | CRename, CRename | CDirSync, CDirSync => true
+  | _, _ => false
+  end.
+(* index of the first active call equal to `failing` *)
+Fixpoint index_of_call (failing : call) (l : list (guard * call)) : nat :=
+  match l with
+  | [] => O
+  | gc :: r => if call_eqb (snd gc) failing then O else S (index_of_call failing r)
+  end.
+
 (* ------------------------------------------------------------------ correspondence interface *)
 Inductive acall :=
 | AWrite (chown mtime : bool) (tmp t : name) (chunks : list bytes)   (* AtomicWriteFile / AtomicWrite / NewAtomicFile..Commit[As] *)
 | ACancel (tmp : name) (chunks : list bytes)
 | ARename (a b : name)
-| ASymlink (tmp link : name) (data : bytes).
+| ASymlink (tmp link : name) (data : bytes)
+(* error paths: the write whose commit fails at the given call (e.g. COpenDir: the directory cannot be opened);
+   a call refused before it touched anything; AtomicSymlink whose rename is refused (the temp link is removed again);
+   a call whose operation list is not predicted (only the monitor applies) *)
+| AWriteFail (chown mtime : bool) (tmp t : name) (chunks : list bytes) (failing : call)
+| ANothing
+| ASymlinkFail (tmp : name) (data : bytes)
+| AOther.
 
 Definition call_ops (nx : ino) (c : acall) : list op :=
   match c with
@@ -266,8 +302,13 @@ Definition call_ops (nx : ino) (c : acall) : list op :=
   | ACancel tmp chunks => cancel_ops nx tmp chunks
   | ARename a b => rename_ops (mkCfg false false false) a b
   | ASymlink tmp link data => symlink_ops (mkCfg false false false) tmp link data
+  | AWriteFail ch mt tmp t chunks failing =>
+      write_ops_f (mkCfg false ch mt) nx tmp t chunks (index_of_call failing (active_commit_calls (mkCfg false ch mt)))
+  | ANothing => []
+  | ASymlinkFail tmp data => [Symlink tmp data; Unlink tmp]
+  | AOther => []
   end.
-Definition call_inodes (c : acall) : N := match c with ARename _ _ => 0 | _ => 1 end.
+Definition call_predicted (c : acall) : bool := match c with AOther => false | _ => true end.
 
 (* files that exist (durably) before the calls: the k-th has inode k *)
 Fixpoint init_from (k : ino) (files : list (name * bytes)) : st :=
@@ -310,7 +351,8 @@ Fixpoint steps_mismatch (s : st) (steps : list obs_step) : bool :=
   match steps with
   | [] => false
   | (c, tr, _) :: r =>
-      negb (ops_eqb (filter not_meta (call_ops (next s) c)) (filter not_meta tr)) || steps_mismatch (run s tr) r
+      (call_predicted c && negb (ops_eqb (filter not_meta (call_ops (next s) c)) (filter not_meta tr))) ||
+      steps_mismatch (run s tr) r
   end.
 Definition mismatch (c : case) : bool :=
   let 'Case files t steps parsed := c in negb parsed || steps_mismatch (init_st files) steps.
